@@ -117,6 +117,11 @@ func tailStr(s string, n int) string {
 
 // baseChecks: what every run must satisfy regardless of the property under test. Returns false when
 // the run cannot be judged (inconclusive) or crashed (violation recorded).
+// hangs counts runs that got nowhere: after two of them a scenario stops (each costs a full watchdog period)
+var hangs int
+
+func tooManyHangs() bool { return hangs >= 2 }
+
 func baseChecks(run *vlab.Run, res *CaseResult, desc interface{}, wantExit0 bool) bool {
 	if res.SetupErr != "" {
 		run.Inconclusive("setup failed: " + res.SetupErr)
@@ -129,6 +134,10 @@ func baseChecks(run *vlab.Run, res *CaseResult, desc interface{}, wantExit0 bool
 	if res.TimedOut {
 		if res.Parked {
 			run.Violation("no-exit", "sx did not exit: no CPU time and no frame during the last second (parked)", map[string]interface{}{"case": desc, "goroutines": tailStr(res.Dump, 60000)})
+		} else if res.NTx == 0 && len(res.Stdout) == 0 {
+			// "still making progress" by the CPU clock only: not one frame and not one line in the whole watchdog period
+			hangs++
+			run.Violation("no-frame-in-the-whole-run", "sx was still alive when the watchdog fired but had sent no frame and printed nothing in all that time (it spins without getting anywhere)", map[string]interface{}{"case": desc, "goroutines": tailStr(res.Dump, 60000)})
 		} else {
 			run.Inconclusive(fmt.Sprintf("watchdog fired while sx was still making progress: %v", desc))
 		}
